@@ -2189,7 +2189,13 @@ def preprocess_file(
     def expand_func_macro(def_name: str, def_value: tuple[str, str]):
         def_args, sub = def_value
         def_args = def_args.split(",")
-        regex = re.compile(rf"\b{def_name}\s*\({','.join(['(.*)']*len(def_args))}\)")
+        # An argument is text without commas outside of (nested) parentheses; a
+        # plain `(.*)` per argument backtracks exponentially on unbalanced calls
+        arg = (
+            r"((?:[^,()'\"]|'[^']*'|\"[^\"]*\""
+            r"|\((?:[^()]|\((?:[^()]|\([^()]*\))*\))*\))*)"
+        )
+        regex = re.compile(rf"\b{def_name}\s*\({','.join([arg] * len(def_args))}\)")
 
         # The body becomes a replacement template: keep its backslashes literal
         sub = sub.replace("\\", r"\\")
